@@ -1,5 +1,6 @@
 """C12 — equality and ordering are coherent (DESIGN §4 C12)."""
 from lib import hir as H
+CORE = "blots_core::"
 from lib import sig as S
 from lib import binop as B
 from lib.facts import CheckerError
@@ -254,6 +255,34 @@ def run(ctx):
         ctx.inst("C12.R4", "compare#List#length-tie-break", okf, "final value %s" % (S.show(fin[1]) if fin else None), H.loc(CMP[key][1]["body"]))
     else:
         ctx.inst("C12.R4", "compare#List#first-difference", False, "no (List, List) arm in compare", None)
+
+    # ---------------- R7 the remainder after a lock-step walk
+    ctx.rule("C12.R7", "in Value::compare / Value::equals and what they call, the remainder after a lock-step walk is never read from an iterator that was the left side of `by_ref().zip(..)`: zip takes one element from its left side before it sees that the right side is finished, so that remainder is one element short (a longer-by-one left operand would compare Equal)", floor=2)
+    from lib import mir as M
+    cg = M.CallGraph([core])
+    roots = [n_ for n_ in (CORE + "values::Value::compare", CORE + "values::Value::equals") if n_ in core.hir]
+    seen, work = set(roots), list(roots)
+    while work:
+        x_ = work.pop()
+        for y_ in cg.out.get(x_, ()):
+            if y_.startswith(CORE) and y_ in core.hir and y_ not in seen and "closure" not in y_:
+                seen.add(y_)
+                work.append(y_)
+    for fn_ in sorted(seen):
+        body = core.hir[fn_].get("body")
+        if body is None:
+            continue
+        bad = []
+        for z in H.walk(body):
+            if H.kind(z) == "MethodCall" and z["name"] == "zip":
+                r_ = H.strip(z["recv"])
+                if H.kind(r_) == "MethodCall" and r_["name"] == "by_ref" and H.path_local(r_["recv"]) is not None:
+                    left = H.path_local(r_["recv"])
+                    end = z["sp"][4]
+                    for u in H.walk(body):
+                        if H.kind(u) == "MethodCall" and H.path_local(u.get("recv")) == left and u["sp"][3] > end and u["name"] != "by_ref":
+                            bad.append("%s.%s() after %s.by_ref().zip(..) (%s)" % (left, u["name"], left, H.loc(u)))
+        ctx.inst("C12.R7", fn_.replace(CORE, "") + "#zip-remainder", not bad, "; ".join(bad) or "no remainder is read from the left side of a by_ref zip", H.loc(body))
 
 
 def scalar_primitives(ctx, rid, core):
